@@ -2,8 +2,9 @@
 """copies a verified mutant from an agent's output dir into /verif/seeded/<id>/   usage: store_seeded.py Cxx n "<needs>" """
 import json, os, shutil, sys, re
 prop, n = sys.argv[1], sys.argv[2]
-src = f"/tmp/wt/{prop}-out"
-dst = f"/verif/seeded/{prop}-m{n}"
+rnd = os.environ.get("ROUND", "1")
+src = f"/tmp/wt/{prop}-out" if rnd == "1" else f"/tmp/wt{rnd}/{prop}-out"
+dst = f"/verif/seeded/{prop}-m{n}" if rnd == "1" else f"/verif/seeded/{prop}-r{rnd}m{n}"
 os.makedirs(dst, exist_ok=True)
 shutil.copy(f"{src}/m{n}.diff", f"{dst}/patch.diff")
 shutil.copy(f"{src}/demo{n}.py", f"{dst}/demo.py")
